@@ -540,5 +540,188 @@ example : localWeekday 0 0 = 4 ∧ localHour 0 0 = 0 ∧ localWeekday (-1) 0 = 3
     localWeekday 1790170200 19800 = 3 ∧ localHour 1790170200 19800 = 19 ∧
     localWeekday 1790170200 (-34200) = 3 ∧ localHour 1790170200 (-34200) = 4 := by decide
 
+/-! ## H. The localhost names of one instance: built-in names and hosts-file aliases
+
+`isLocalhostOf aliases host` is `HTTPProxy.isLocalhost` of an instance `NewHTTPProxy` constructed on a
+machine whose hosts file gives the names `aliases` (as spelt there, in whatever order, with whatever
+repetitions) to loopback addresses: the aliases are lower-cased when the instance is constructed, the
+host when it is looked up, and the lookup is a linear scan. -/
+
+/-- the classifier, written out: a built-in name, an alias, or a loopback / unspecified IP literal —
+    everything compared without regard to letter case -/
+theorem c04_localhost_of_iff (aliases : List Bytes) (host : Bytes) :
+    isLocalhostOf aliases host = true ↔
+      lower host ∈ builtinLocalhost ∨ (∃ a ∈ aliases, lower a = lower host) ∨
+      isLoopbackLiteral (lower host) = true ∨ isUnspecifiedLiteral (lower host) = true := by
+  unfold isLocalhostOf isLocalhostNames
+  simp only [Bool.or_eq_true, List.contains_eq_mem, decide_eq_true_eq, mem_hpLocalhost]
+  constructor
+  · rintro (((h | h) | h) | h)
+    · exact Or.inl h
+    · exact Or.inr (Or.inl h)
+    · exact Or.inr (Or.inr (Or.inl h))
+    · exact Or.inr (Or.inr (Or.inr h))
+  · rintro (h | h | h | h)
+    · exact Or.inl (Or.inl (Or.inl h))
+    · exact Or.inl (Or.inl (Or.inr h))
+    · exact Or.inl (Or.inr h)
+    · exact Or.inr h
+
+/-- `localhost` (and `0.0.0.0`, `::`) is localhost in every letter case, whatever the hosts file holds -/
+theorem c04_localhost_always (aliases : List Bytes) (host : Bytes)
+    (h : lower host = bs "localhost" ∨ lower host = bs "0.0.0.0" ∨ lower host = bs "::") :
+    isLocalhostOf aliases host = true := by
+  rw [c04_localhost_of_iff]
+  refine Or.inl ?_
+  unfold builtinLocalhost
+  rcases h with h | h | h <;> rw [h] <;> simp
+
+/-- every alias is localhost, in every letter case of the alias and of the request's host -/
+theorem c04_alias_is_localhost {aliases : List Bytes} {a : Bytes} (ha : a ∈ aliases) (host : Bytes)
+    (h : lower host = lower a) : isLocalhostOf aliases host = true := by
+  rw [c04_localhost_of_iff]
+  exact Or.inr (Or.inl ⟨a, ha, h.symm⟩)
+
+/-- the order of the alias list and the number of times a name occurs in it play no role: two lists
+    with the same elements give the same classifier -/
+theorem c04_localhost_alias_order_irrelevant (as₁ as₂ : List Bytes) (h : ∀ x, x ∈ as₁ ↔ x ∈ as₂) (host : Bytes) :
+    isLocalhostOf as₁ host = isLocalhostOf as₂ host := by
+  apply Bool.eq_iff_iff.mpr
+  rw [c04_localhost_of_iff, c04_localhost_of_iff]
+  constructor
+  · rintro (h1 | ⟨a, ha, he⟩ | h1)
+    · exact Or.inl h1
+    · exact Or.inr (Or.inl ⟨a, (h a).mp ha, he⟩)
+    · exact Or.inr (Or.inr h1)
+  · rintro (h1 | ⟨a, ha, he⟩ | h1)
+    · exact Or.inl h1
+    · exact Or.inr (Or.inl ⟨a, (h a).mpr ha, he⟩)
+    · exact Or.inr (Or.inr h1)
+
+/-- in particular: reversed, sorted any way (a permutation), repeated, or de-duplicated -/
+theorem c04_localhost_alias_perm {as₁ as₂ : List Bytes} (h : as₁.Perm as₂) (host : Bytes) :
+    isLocalhostOf as₁ host = isLocalhostOf as₂ host :=
+  c04_localhost_alias_order_irrelevant as₁ as₂ (fun _ => h.mem_iff) host
+
+theorem c04_localhost_alias_duplicates (aliases : List Bytes) (host : Bytes) :
+    isLocalhostOf (aliases ++ aliases) host = isLocalhostOf aliases host ∧
+    isLocalhostOf aliases.eraseDups host = isLocalhostOf aliases host ∧
+    isLocalhostOf (builtinLocalhost ++ aliases) host = isLocalhostOf aliases host := by
+  refine ⟨c04_localhost_alias_order_irrelevant _ _ (fun x => by simp) host,
+    c04_localhost_alias_order_irrelevant _ _ (fun x => by simp) host, ?_⟩
+  apply Bool.eq_iff_iff.mpr
+  rw [c04_localhost_of_iff, c04_localhost_of_iff]
+  constructor
+  · rintro (h1 | ⟨a, ha, he⟩ | h1)
+    · exact Or.inl h1
+    · rcases List.mem_append.mp ha with hb | hb
+      · refine Or.inl ?_
+        have hl : lower a = a := by
+          unfold builtinLocalhost at hb
+          simp only [List.mem_cons, List.not_mem_nil, or_false] at hb
+          rcases hb with hb | hb | hb <;> rw [hb] <;> with_unfolding_all decide
+        rw [← he, hl]; exact hb
+      · exact Or.inr (Or.inl ⟨a, hb, he⟩)
+    · exact Or.inr (Or.inr h1)
+  · rintro (h1 | ⟨a, ha, he⟩ | h1)
+    · exact Or.inl h1
+    · exact Or.inr (Or.inl ⟨a, List.mem_append_right _ ha, he⟩)
+    · exact Or.inr (Or.inr h1)
+
+/-- the letter case of the aliases in the hosts file plays no role … -/
+theorem c04_localhost_alias_case_irrelevant (as₁ as₂ : List Bytes) (h : as₁.map lower = as₂.map lower) (host : Bytes) :
+    isLocalhostOf as₁ host = isLocalhostOf as₂ host := by
+  unfold isLocalhostOf hpLocalhost
+  rw [h]
+
+/-- … nor does the letter case of the host in the request -/
+theorem c04_localhost_host_case_irrelevant (aliases : List Bytes) (h₁ h₂ : Bytes) (h : lower h₁ = lower h₂) :
+    isLocalhostOf aliases h₁ = isLocalhostOf aliases h₂ := by
+  unfold isLocalhostOf isLocalhostNames
+  simp only [h]
+
+/-- lower-casing the aliases once more (or the host before it is handed in) changes nothing -/
+theorem c04_localhost_lowering_idempotent (aliases : List Bytes) (host : Bytes) :
+    isLocalhostOf (aliases.map lower) host = isLocalhostOf aliases host ∧
+    isLocalhostOf aliases (lower host) = isLocalhostOf aliases host :=
+  ⟨c04_localhost_alias_case_irrelevant _ _ (by rw [List.map_map]; exact List.map_congr_left (fun a _ => lower_lower a)) host,
+   c04_localhost_host_case_irrelevant _ _ _ (lower_lower host)⟩
+
+/-- from the hosts file to the classifier: a name is localhost through the hosts file exactly when some
+    record with a LOOPBACK address carries it (case-insensitively); the names of other records —
+    `0.0.0.0 ads.example`, `10.0.0.5 build-host` — are not made localhost by the file -/
+theorem c04_hosts_file_iff (recs : List HostsRecord) (host : Bytes) :
+    isLocalhostOf (localhostAliases recs) host = true ↔
+      lower host ∈ builtinLocalhost ∨
+      (∃ r ∈ recs, isLoopbackLiteral r.ip = true ∧ ∃ n ∈ r.names, lower n = lower host) ∨
+      isLoopbackLiteral (lower host) = true ∨ isUnspecifiedLiteral (lower host) = true := by
+  rw [c04_localhost_of_iff]
+  constructor
+  · rintro (h | ⟨a, ha, he⟩ | h)
+    · exact Or.inl h
+    · obtain ⟨r, hr, hl, hn⟩ := (mem_localhostAliases recs a).mp ha
+      exact Or.inr (Or.inl ⟨r, hr, hl, a, hn, he⟩)
+    · exact Or.inr (Or.inr h)
+  · rintro (h | ⟨r, hr, hl, n, hn, he⟩ | h)
+    · exact Or.inl h
+    · exact Or.inr (Or.inl ⟨n, (mem_localhostAliases recs n).mpr ⟨r, hr, hl, hn⟩, he⟩)
+    · exact Or.inr (Or.inr h)
+
+/-- records of the hosts file that do not carry a loopback address, the order of the records and the
+    order of the names on a line play no role -/
+theorem c04_hosts_file_other_records_irrelevant (recs₁ recs₂ : List HostsRecord)
+    (h : ∀ r, isLoopbackLiteral r.ip = true → (r ∈ recs₁ ↔ r ∈ recs₂)) (host : Bytes) :
+    isLocalhostOf (localhostAliases recs₁) host = isLocalhostOf (localhostAliases recs₂) host := by
+  apply c04_localhost_alias_order_irrelevant
+  intro x
+  rw [mem_localhostAliases, mem_localhostAliases]
+  constructor
+  · rintro ⟨r, hr, hl, hx⟩; exact ⟨r, (h r hl).mp hr, hl, hx⟩
+  · rintro ⟨r, hr, hl, hx⟩; exact ⟨r, (h r hl).mpr hr, hl, hx⟩
+
+/-- with localhost denial on, the localhost control rejects `localhost` and every alias, in every
+    letter case, on an instance constructed with these aliases -/
+theorem c04_alias_control_fails {cfg : Cfg} {aliases : List Bytes} (hn : cfg.localhostNames = hpLocalhost aliases)
+    (hd : cfg.denyLocalhost = true) (host pa : Bytes)
+    (h : lower host = bs "localhost" ∨ ∃ a ∈ aliases, lower host = lower a) :
+    Control.fails cfg host pa .localhost = true := by
+  have hl : isLocalhostOf aliases host = true := by
+    rcases h with h | ⟨a, ha, he⟩
+    · exact c04_localhost_always aliases host (Or.inl h)
+    · exact c04_alias_is_localhost ha host he
+  unfold Control.fails Req.isLocalhost
+  rw [hd, hn]
+  exact hl
+
+/-- the lookup must not rely on an order of the list: a binary search agrees with the scan on a sorted
+    list, but the list `NewHTTPProxy` composes is not sorted — sorting the names as the hosts file
+    spells them and lower-casing them afterwards (hosts file `127.0.0.1 localhost
+    kubernetes.docker.internal SL-666`) leaves `localhost` behind `sl-666`, where a binary search no
+    longer finds it; the scan does -/
+theorem c04_sorted_lookup_witness :
+    let asSorted : List Bytes := [bs "0.0.0.0", bs "::", bs "SL-666", bs "kubernetes.docker.internal", bs "localhost"]
+    let names := asSorted.map lower
+    sortedLookup 8 asSorted (bs "localhost") = true ∧
+    sortedLookup 8 names (bs "localhost") = false ∧ names.contains (bs "localhost") = true ∧
+    isLocalhostOf [bs "SL-666", bs "kubernetes.docker.internal", bs "localhost"] (bs "localhost") = true ∧
+    isLocalhostOf [bs "SL-666", bs "kubernetes.docker.internal", bs "localhost"] (bs "sl-666") = true ∧
+    isLocalhostOf [bs "SL-666", bs "kubernetes.docker.internal", bs "localhost"] (bs "Kubernetes.Docker.Internal") = true := by
+  with_unfolding_all decide
+
+-- a hosts file with mixed-case loopback aliases, an IPv6 loopback record and records that are not loopback
+example :
+    let recs : List HostsRecord := [
+      { ip := bs "127.0.0.1", names := [bs "localhost", bs "SL-666"] },
+      { ip := bs "0.0.0.0", names := [bs "ads.example"] },
+      { ip := bs "::1", names := [bs "ip6-LoopBack", bs "localhost"] },
+      { ip := bs "10.0.0.5", names := [bs "Build-Host"] },
+      { ip := bs "127.8.9.10", names := [bs "Zebra"] }]
+    localhostAliases recs = [bs "localhost", bs "SL-666", bs "ip6-LoopBack", bs "localhost", bs "Zebra"] ∧
+    isLocalhostOf (localhostAliases recs) (bs "sl-666") = true ∧ isLocalhostOf (localhostAliases recs) (bs "IP6-loopback") = true ∧
+    isLocalhostOf (localhostAliases recs) (bs "ZEBRA") = true ∧ isLocalhostOf (localhostAliases recs) (bs "LOCALHOST") = true ∧
+    isLocalhostOf (localhostAliases recs) (bs "ads.example") = false ∧ isLocalhostOf (localhostAliases recs) (bs "build-host") = false ∧
+    isLocalhostOf (localhostAliases recs) (bs "sl-6666") = false := by
+  with_unfolding_all decide
+
 end C04
 end FwdVerif
